@@ -81,9 +81,9 @@ func guardedSub(bo *ssa.BinOp) (bool, string) {
 
 // auditedSubs: unsigned subtractions that are safe for a reason outside the function.
 var auditedSubs = map[string]string{
-	"conversions.(*ConversionSupplySet).Payouts s.Bank-totalPaid":   "totalPaid = sum of floor(c*Bank/total) over requests <= Bank (total >= Bank on this path)",
-	"node.(*Pegnetd).NullifyBurnAddress height-j":                   "j <= 62 and height is an activation height > 200000",
-	"node.(*Pegnetd).GetPegNetRateAverages node.AveragePeriod-numberMissing()": "numberMissing counts zeros of a window of at most AveragePeriod entries plus the missing entries, so it is <= AveragePeriod",
+	"conversions.ConversionSupplySet.Payouts conversions.ConversionSupplySet.Bank-(variable uint64)":   "totalPaid = sum of floor(c*Bank/total) over requests <= Bank (total >= Bank on this path)",
+	"node.Pegnetd.NullifyBurnAddress (parameter uint32 #0)-(variable int)":                   "j <= 62 and height is an activation height > 200000",
+	"node.Pegnetd.GetPegNetRateAverages node.AveragePeriod-numberMissing()": "numberMissing counts zeros of a window of at most AveragePeriod entries plus the missing entries, so it is <= AveragePeriod",
 }
 
 func propC03(c *Ctx, r *Report) {
@@ -98,14 +98,16 @@ func propC03(c *Ctx, r *Report) {
 	sfb := c.fn("pegnet.Pegnet.SubFromBalance")
 	{
 		var upd *SQLStmt
+		var updSite ssa.Instruction // the UPDATE, or the call in SubFromBalance to the helper that now issues it
 		for _, st := range cat.Stmts {
-			if st.Fn == sfb && st.Verb == "UPDATE" {
+			if st.Verb == "UPDATE" && st.Table == "pn_addresses" && c.inFamily(st.Fn, sfb) {
 				upd = st
+				updSite = c.liftSite(st.Site, sfb)
 			}
 		}
-		sel := findCalls(sfb, "pegnet.(*Pegnet).SelectPendingBalance")
+		sel := findCalls(sfb, "pegnet.Pegnet.SelectPendingBalance")
 		var bad []string
-		if upd == nil || len(sel) != 1 {
+		if upd == nil || updSite == nil || len(sel) != 1 {
 			bad = append(bad, "anchors not found (UPDATE statement / SelectPendingBalance call)")
 		} else {
 			sc := sel[0].(*ssa.Call)
@@ -121,13 +123,26 @@ func propC03(c *Ctx, r *Report) {
 			}
 			guarded := false
 			for _, b := range sfb.Blocks {
-				cond, tb, fb := condEdge(b)
-				cb, ok := cond.(*ssa.BinOp)
-				if !ok || cb.Op != token.LSS || cb.X != balV || cb.Y != ssa.Value(sfb.Params[4]) {
+				x, y, lt, ge := ordEdges(b) // balance < value / balance >= value in any spelling
+				if x != balV || y != ssa.Value(sfb.Params[4]) {
 					continue
 				}
-				if blockOrDom(fb, upd.Site.Block()) && !blockOrDom(tb, upd.Site.Block()) {
+				if blockOrDom(ge, updSite.Block()) && !blockOrDom(lt, updSite.Block()) {
 					guarded = true
+				}
+			}
+			// the value debited by the statement is the value compared
+			if updSite != upd.Site {
+				okVal := false
+				if ci, ok := updSite.(ssa.CallInstruction); ok {
+					for _, a := range ci.Common().Args {
+						if a == ssa.Value(sfb.Params[4]) {
+							okVal = true
+						}
+					}
+				}
+				if !okVal {
+					bad = append(bad, "the helper issuing the UPDATE is not given the value that was compared")
 				}
 			}
 			if !guarded {
@@ -139,7 +154,7 @@ func propC03(c *Ctx, r *Report) {
 		}
 		r.check(len(bad) == 0, "C03-R1/debit-guard", "SubFromBalance", c.pos(sfb.Pos()), "UPDATE dominated by the false edge of balance < value (pending balance, same address and ticker)", strings.Join(bad, "; "))
 		// zero-value path credits 0 instead of debiting
-		z := findCalls(sfb, "pegnet.(*Pegnet).AddToBalance")
+		z := findCalls(sfb, "pegnet.Pegnet.AddToBalance")
 		okZ := len(z) == 1
 		if okZ {
 			k, ok := z[0].Common().Args[4].(*ssa.Const)
@@ -205,8 +220,8 @@ func propC03(c *Ctx, r *Report) {
 		for _, rel := range []int{-1, 0, 1} {
 			rel := rel
 			sc := &Scenario{
-				Params: map[string]AVal{"rates": nilVal},
-				Calls:  map[string]AVal{"fat2.(*Transaction).IsConversion": cBool(false)},
+				Params: map[string]AVal{"type:map[fat2.PTicker]uint64#0": nilVal},
+				Calls:  map[string]AVal{"fat2.Transaction.IsConversion": cBool(false)},
 				Paths:  map[string]AVal{"fat2.TypedAddressAmountTuple.Amount": sym("amount")},
 				Lookups: map[string]AVal{
 					"SelectPendingBalances()#0[fat2.TypedAddressAmountTuple.Type]": sym("bal1"),
@@ -237,7 +252,7 @@ func propC03(c *Ctx, r *Report) {
 			st := s.run(atb, nil, 0)
 			acc.absorb(s)
 			r.Scen++
-			le := loopOver(st, "txBatch.Transactions", pass)
+			le := loopOver(st, "fat2.TransactionBatch.Transactions", pass)
 			want := "next"
 			if rel > 0 {
 				want = "err:InsufficientBalanceErr"
@@ -353,23 +368,201 @@ func propC03(c *Ctx, r *Report) {
 	}
 
 	ruleValidateBounds(c, r, "C03-R7/validate-bounds")
+	// applied completely: a PEG request, whose output recordBatch defers, is either rejected before anything is
+	// written (PegNet 2.0 on) or handed to the settlement that credits it (before) - at every height class
+	r.rule("C03-R9/peg-request-complete", 1, "a batch with a deferred PEG output is either collected for settlement or rejected up front")
+	{
+		e := newEraCtx(c, r)
+		hold := c.fn("node.Pegnetd.ApplyTransactionBatchesInHolding")
+		limitAct := e.a.get("PegnetConversionLimitActivation")
+		acc := newTableAcc()
+		var bad []string
+		n := 0
+		for _, h := range e.reps {
+			if h < limitAct {
+				continue // the PEG output is credited immediately in recordBatch (C16 era table)
+			}
+			n++
+			sc := &Scenario{Params: map[string]AVal{"type:uint32": hconst(h)},
+				Calls: map[string]AVal{"HasPEGRequest": cBool(true), "isDone": cBool(false), "applyTransactionBatch": nilVal, "IsReplayTransaction": {K: ATuple, Tup: []AVal{cBool(false), nilVal}},
+					"SelectBankEntry": {K: ATuple, Tup: []AVal{top, nilVal}}},
+				MaxDepth: 1, AllErrorsNil: true, NoInline: map[string]bool{"recordPegnetRequests": true, "GetPegNetRateAverages": true}}
+			t, _ := acc.run(c, r, hold, sc)
+			collected := false
+			for _, lc := range t.Calls {
+				if lc.Callee == "builtin.append" && lc.Depth == 0 {
+					collected = true
+				}
+			}
+			gated := t.Live("ValidatePegTx")
+			executed := t.Live("applyTransactionBatch")
+			if executed && !collected && !gated && len(bad) < 5 {
+				bad = append(bad, fmt.Sprintf("h=%d: the batch is executed (input debited, PEG output deferred) but neither collected for the PEG settlement nor checked by ValidatePegTx", h))
+			}
+		}
+		acc.report(c, r, "C03-R9/peg-request-complete", hold)
+		r.check(len(bad) == 0, "C03-R9/peg-request-complete", "ApplyTransactionBatchesInHolding, batches with a PEG request", c.pos(hold.Pos()), fmt.Sprintf("%d height classes", n), strings.Join(bad, "; ")+": only the debit half of the conversion is applied")
+	}
+	// applied completely: every transfer output of an executed batch is credited (shared with C04-R3)
+	r.rule("C03-R8/outputs-credited", 1, "only the burn address is exempt from being credited")
+	rb := c.fn("node.Pegnetd.recordBatch")
+	for _, a := range findCalls(rb, "pegnet.Pegnet.AddToBalance") {
+		if typePath(a.Common().Args[4]) == "fat2.AddressAmountTuple.Amount" {
+			burnExemptionRule(c, r, rb, a, "C03-R8/outputs-credited", "")
+		}
+	}
 }
 
+// valueDesc2 names a value for constructs and audit keys without using the names of locals or parameters:
+// fields by the type that declares them, everything else by kind and type.
 func valueDesc2(v ssa.Value) string {
-	v = unwrapConv(v)
-	if p := valuePath(v); p != "" {
-		return p
+	return stablePath(unwrapConv(v), 0)
+}
+
+func shortType(t types.Type) string {
+	return types.TypeString(t, func(p *types.Package) string { return p.Name() })
+}
+
+func stablePath(v ssa.Value, depth int) string {
+	if depth > 8 {
+		return "expr"
 	}
-	if ph, ok := v.(*ssa.Phi); ok && ph.Comment != "" {
-		return ph.Comment
+	switch x := v.(type) {
+	case *ssa.Const:
+		if x.Value != nil {
+			return x.Value.ExactString()
+		}
+		return "nil"
+	case *ssa.Global:
+		return x.Pkg.Pkg.Name() + "." + x.Name()
+	case *ssa.Parameter:
+		// ordinal among the parameters of the same type, so that e.g. the two rate maps stay distinct
+		k := 0
+		if f := x.Parent(); f != nil {
+			for _, p := range f.Params {
+				if p == x {
+					break
+				}
+				if types.Identical(p.Type(), x.Type()) {
+					k++
+				}
+			}
+		}
+		return fmt.Sprintf("(parameter %s #%d)", shortType(x.Type()), k)
+	case *ssa.FreeVar:
+		t := x.Type()
+		if p, ok := t.(*types.Pointer); ok {
+			t = p.Elem()
+		}
+		return "(captured " + shortType(t) + ")"
+	case *ssa.Alloc:
+		t := x.Type()
+		if p, ok := t.(*types.Pointer); ok {
+			t = p.Elem()
+		}
+		return "(local " + shortType(t) + ")"
+	case *ssa.FieldAddr:
+		st := derefStruct(x.X.Type())
+		if tn := namedShort(x.X.Type()); tn != "" && st != nil {
+			return tn + "." + st.Field(x.Field).Name()
+		}
+		if st != nil {
+			return stablePath(x.X, depth+1) + "." + st.Field(x.Field).Name()
+		}
+	case *ssa.Field:
+		st, _ := x.X.Type().Underlying().(*types.Struct)
+		if tn := namedShort(x.X.Type()); tn != "" && st != nil {
+			return tn + "." + st.Field(x.Field).Name()
+		}
+		if st != nil {
+			return stablePath(x.X, depth+1) + "." + st.Field(x.Field).Name()
+		}
+	case *ssa.UnOp:
+		if x.Op == token.MUL {
+			if p := spilledParam(x); p != nil {
+				return stablePath(p, depth+1) // a parameter kept in a local slot because a closure captures it
+			}
+			return stablePath(x.X, depth+1)
+		}
+		return x.Op.String() + stablePath(x.X, depth+1)
+	case *ssa.IndexAddr:
+		return stablePath(x.X, depth+1) + "[" + idxStable(x.Index, depth) + "]"
+	case *ssa.Index:
+		return stablePath(x.X, depth+1) + "[" + idxStable(x.Index, depth) + "]"
+	case *ssa.Lookup:
+		return stablePath(x.X, depth+1) + "[" + idxStable(x.Index, depth) + "]"
+	case *ssa.Slice:
+		return stablePath(x.X, depth+1)
+	case *ssa.Convert:
+		return stablePath(x.X, depth+1)
+	case *ssa.ChangeType:
+		return stablePath(x.X, depth+1)
+	case *ssa.MakeInterface:
+		return stablePath(x.X, depth+1)
+	case *ssa.Call:
+		if d := helperResultDesc(x, 0, depth); d != "" {
+			return d
+		}
+		return shortCallee(x.Common()) + "()"
+	case *ssa.Extract:
+		switch y := x.Tuple.(type) {
+		case *ssa.Call:
+			if d := helperResultDesc(y, x.Index, depth); d != "" {
+				return d
+			}
+			return fmt.Sprintf("%s()#%d", shortCallee(y.Common()), x.Index)
+		case *ssa.Lookup:
+			return stablePath(y, depth+1)
+		case *ssa.Next:
+			if rg, ok := y.Iter.(*ssa.Range); ok {
+				if x.Index == 1 {
+					return "key of " + stablePath(rg.X, depth+1)
+				}
+				return stablePath(rg.X, depth+1) + "[]"
+			}
+		case *ssa.TypeAssert:
+			return stablePath(y.X, depth+1)
+		}
+	case *ssa.TypeAssert:
+		return stablePath(x.X, depth+1)
+	case *ssa.Phi:
+		return "(variable " + shortType(x.Type()) + ")"
+	case *ssa.BinOp:
+		return "(" + stablePath(x.X, depth+1) + x.Op.String() + stablePath(x.Y, depth+1) + ")"
 	}
-	if c, ok := v.(*ssa.Call); ok {
-		return shortCallee(c.Common()) + "()"
+	return "(" + shortType(v.Type()) + " value)"
+}
+
+// helperResultDesc: the result of a helper split off from a reference function is described by what the helper
+// returns (when all its returns agree), so that extracting a block into a helper does not rename the value.
+func helperResultDesc(call *ssa.Call, idx, depth int) string {
+	sc := call.Call.StaticCallee()
+	if sc == nil || !isNewHelper(sc) {
+		return ""
 	}
-	if tp := typePath(v); tp != "" {
-		return tp
+	d := ""
+	agree := true
+	allInstrs(sc, func(ins ssa.Instruction) {
+		if ret, ok := ins.(*ssa.Return); ok && idx < len(ret.Results) {
+			x := stablePath(unwrapConv(resolveSpill(ret.Results[idx])), depth+1)
+			if d == "" {
+				d = x
+			} else if d != x {
+				agree = false
+			}
+		}
+	})
+	if !agree {
+		return ""
 	}
-	return "expr"
+	return d
+}
+
+func idxStable(v ssa.Value, depth int) string {
+	if k, ok := v.(*ssa.Const); ok && k.Value != nil {
+		return k.Value.ExactString()
+	}
+	return ""
 }
 
 func ruleMidBatchFailure(c *Ctx, r *Report, rule string) {
@@ -401,7 +594,7 @@ func ruleMidBatchFailure(c *Ctx, r *Report, rule string) {
 		}
 		// the txErr is tested
 		tested := false
-		for _, ci := range findCalls(rb, "pegnet.(*Pegnet).SubFromBalance") {
+		for _, ci := range findCalls(rb, "pegnet.Pegnet.SubFromBalance") {
 			call := ci.(*ssa.Call)
 			for _, rf := range *call.Referrers() {
 				if ex, ok := rf.(*ssa.Extract); ok && ex.Index == 1 {
@@ -452,7 +645,7 @@ func ruleValidateBounds(c *Ctx, r *Report, rule string) {
 			if !hasGuardedSub {
 				break
 			}
-			sc := &Scenario{Calls: map[string]AVal{"fat2.(*Transaction).IsConversion": cBool(false)}, Phis: map[string]AVal{"init:fat2.TypedAddressAmountTuple.Amount": cUint(uint64(rem))},
+			sc := &Scenario{Calls: map[string]AVal{"fat2.Transaction.IsConversion": cBool(false)}, Phis: map[string]AVal{"init:fat2.TypedAddressAmountTuple.Amount": cUint(uint64(rem))},
 				Lens: map[string]AVal{"fat2.Transaction.Transfers": cInt(2)}, Paths: map[string]AVal{"fat2.Transaction.Conversion": cInt(0)}, MaxDepth: 0}
 			st := newSCCP(c, sc).run(tv, nil, 0)
 			r.Scen++
